@@ -337,6 +337,15 @@ Section Ext.
     intros H0 H1. unfold zrange. apply in_map_iff. exists (Z.to_nat p). split; [lia|]. apply in_seq. lia.
   Qed.
 
+  (* Reader::merge_xref_stream (since /repo 4ad1a1a the XRefStm look-ups of the Prev loop go through it) *)
+  Lemma merge_xref_stream_x_ok buf x start : stok (merge_xref_stream_x decompress can_decompress buf x start).
+  Proof.
+    unfold merge_xref_stream_x. destruct start as [[| | q | | | | | | |]|]; try (split; discriminate).
+    destruct ((q <? 0)%Z || (Loader.blen buf <? Z.to_N q)); [split; discriminate|].
+    destruct (xref_and_trailer_x_ok buf (Z.to_N q)) as [Y1 Y2].
+    destruct (xref_and_trailer_x decompress can_decompress buf (Z.to_N q)) as [[sx st]|e| | |]; try (split; discriminate); try congruence.
+  Qed.
+
   Lemma prev_loop_x_ok buf : forall fuel x t prev seen,
     NoDup seen -> incl seen (zrange (length buf)) -> (S (length buf) < fuel + length seen)%nat ->
     stok (prev_loop_x decompress can_decompress fuel buf x t prev seen).
@@ -352,12 +361,12 @@ Section Ext.
       assert (Hincl' : incl (p :: seen) (zrange (length buf))).
       { intros q [<-|Hq]; [apply in_zrange; [exact G1|exact G2]|apply Hincl; exact Hq]. }
       assert (Hlen' : (S (length buf) < f + length (p :: seen))%nat) by (cbn [length]; lia).
+      destruct (merge_xref_stream_x_ok buf x (dict_get t K_XRefStm)) as [M1 M2].
+      destruct (merge_xref_stream_x decompress can_decompress buf x (dict_get t K_XRefStm)) as [x1|e| | |]; try (split; discriminate); try congruence.
       destruct (xref_and_trailer_x_ok buf (Z.to_N p)) as [X1 X2].
       destruct (xref_and_trailer_x decompress can_decompress buf (Z.to_N p)) as [[px pt]|e| | |]; try (split; discriminate); try congruence.
-      destruct (dict_get t K_XRefStm) as [[| | q | | | | | | |]|]; try (apply IH; assumption).
-      destruct ((q <? 0)%Z || (Loader.blen buf <? Z.to_N q)); [split; discriminate|].
-      destruct (xref_and_trailer_x_ok buf (Z.to_N q)) as [Y1 Y2].
-      destruct (xref_and_trailer_x decompress can_decompress buf (Z.to_N q)) as [[sx st]|e| | |]; try (split; discriminate); try congruence.
+      destruct (merge_xref_stream_x_ok buf px (dict_get pt K_XRefStm)) as [N1 N2].
+      destruct (merge_xref_stream_x decompress can_decompress buf px (dict_get pt K_XRefStm)) as [px1|e| | |]; try (split; discriminate); try congruence.
       apply IH; assumption.
   Qed.
 
